@@ -128,6 +128,76 @@ def gen_under_resolved(rng, backend):
     return c
 
 
+def gen_truncating(rng):
+    """emu-mps on an entangling chain with a saturated bond dimension / coarse precision: every two-site
+    truncation discards weight, so the raw MPS loses norm during the run. `fill_results` hands the
+    observables a *normalised* copy — that is what the first clause of C28 is about for emu-mps."""
+    c = chain_case(rng.randint(6, 8), rng.uniform(6.5, 9.0), rng.uniform(6.0, 12.0), rng.uniform(-4.0, 6.0),
+                   rng.randint(5, 9), rng.choice([1e-2, 1e-3]))
+    dt = rng.choice([10.0, 20.0, 20.0])
+    c["times"] = [dt * k for k in range(c["nsteps"] + 1)]
+    c["max_bond_dim"] = rng.choice([2, 3, 4])
+    c["grid_kind"] = "truncating"
+    return c
+
+
+def mps_to_dense(state):
+    """contract the factors (Dl, 2, Dr) left to right; atom 0 is the most significant bit"""
+    import torch
+    acc = torch.ones(1, 1, dtype=torch.complex128)
+    for f in state.factors:
+        f = f.to("cpu").to(torch.complex128)
+        acc = torch.tensordot(acc, f, dims=([acc.dim() - 1], [0]))
+        acc = acc.reshape(-1, f.shape[2])
+    return acc.reshape(-1).numpy()
+
+
+def run_truncating(case):
+    from harness import compat
+    from pulser.backend import StateResult, Energy, Occupation
+    f64 = lambda x: np.array(x, dtype=np.float64)
+    T = case["times"][-1]
+    ev = [t / T for t in case["times"]]
+    obs = [StateResult(evaluation_times=ev), Energy(evaluation_times=ev), Occupation(evaluation_times=ev)]
+    data = compat.make_sequence_data(f64(case["omega"]), f64(case["delta"]), f64(case["phi"]), f64(case["U"]), case["times"])
+    res = compat.run_mps(data, compat.mps_config(observables=obs, precision=case["precision"], dt=10,
+                                                 max_bond_dim=case["max_bond_dim"]))
+    return dict(norm=[float(s.norm()) for s in res.state], dense=[mps_to_dense(s) for s in res.state],
+                bond=[int(s.get_max_bond_dim()) for s in res.state],
+                energy=[float(x) for x in res.energy], occ=[np.array(x, dtype=float) for x in res.occupation])
+
+
+def oracle_truncating(case, r):
+    """(a) the state every observable receives has norm 1 to 1e-10 at every evaluation time (fill_results
+    normalises; the discarded weight must not leak into the results); (b) the reported occupation and energy are
+    those of that normalised state (dense contraction of the reported MPS, independent dense H)."""
+    n = case["n"]
+    nops = [np.real(np.diag(ic.embed(ic.NN, q, n))) for q in range(n)]
+    worst = 0.0
+    for k, (nv, v) in enumerate(zip(r["norm"], r["dense"])):
+        dn = abs(nv - 1.0)
+        worst = max(worst, dn / 1e-10)
+        if not dn <= 1e-10:
+            return f"state handed to the observables at index {k} has norm {nv!r} (deviates from 1 by {dn:.3e} > 1e-10)", worst
+        d2 = abs(float(np.linalg.norm(v)) - 1.0)
+        if not d2 <= 1e-9:
+            return f"dense contraction of the reported MPS at index {k} has norm deviating from 1 by {d2:.3e}", worst
+        vh = v / np.linalg.norm(v)
+        occ = np.array([float(np.sum(nops[q] * np.abs(vh) ** 2)) for q in range(n)])
+        eo = float(np.max(np.abs(occ - r["occ"][k])))
+        worst = max(worst, eo / 1e-8)
+        if not eo <= 1e-8:
+            return f"occupation at index {k} differs from that of the normalised reported state by {eo:.3e} > 1e-8", worst
+        kk = max(k - 1, 0)
+        H = ic.dense_h(case["omega"][kk], case["delta"][kk], case["phi"][kk], case["U"])
+        e = float(np.real(np.vdot(vh, H @ vh)))
+        tol = 1e-8 * max(1.0, h_bound(case, kk))
+        worst = max(worst, abs(e - r["energy"][k]) / tol)
+        if not abs(e - r["energy"][k]) <= tol:
+            return f"energy at index {k} differs from <H> of the normalised reported state by {abs(e - r['energy'][k]):.3e} > {tol:.3e}", worst
+    return None, worst
+
+
 def run_case(case):
     from harness import compat
     from pulser.backend import StateResult, Energy, EnergySecondMoment
@@ -163,7 +233,8 @@ def oracle(case, r):
     e1 = 10.0 * case["kt"] if case["backend"] == "sv" else 2 * (n - 1) * case["precision"]
     worst = 0.0
     for k, nv in enumerate(r["norm"]):
-        allowed = k * e1 + 1e-10
+        # emu-sv: Krylov budget per step; emu-mps: fill_results hands out a normalised copy → 1e-10 flat
+        allowed = (k * e1 + 1e-10) if case["backend"] == "sv" else 1e-10
         worst = max(worst, abs(nv - 1.0) / allowed)
         if not abs(nv - 1.0) <= allowed:
             return f"norm at index {k} deviates from 1 by {abs(nv - 1.0):.3e} > {allowed:.3e}", worst
@@ -214,7 +285,9 @@ def check(rep: Report, tier: str, seed: int) -> None:
                 "per-atom drives with Omega >= 1 rad/us; chain register with van-der-Waals U; uniform and non-uniform step "
                 "lengths) on emu-sv (2-10 atoms, krylov_tolerance 1e-8/1e-10) and emu-mps (2-12 atoms, precision 1e-5/1e-6, "
                 "dt = 10 ns); plus an under-resolved stream (emu-mps max_krylov_dim 4-30 with 20/40 ns steps on a 5.5-7 um chain, "
-                "emu-sv 7-9 atoms with 0.3-2 us steps) where the only acceptable outcomes are RecursionError or conservation. "
+                "emu-sv 7-9 atoms with 0.3-2 us steps) where the only acceptable outcomes are RecursionError or conservation; "
+                "plus a truncating emu-mps stream (6-8 atom entangling chains, max_bond_dim 2-4, precision 1e-2/1e-3) where the "
+                "state every observable receives must have norm 1 to 1e-10 and occupation/energy must be those of that state. "
                 "non-trivial = window of >= 3 steps or >= 2 windows")
     rep.assumptions = [
         "emu-sv Krylov step within 10*krylov_tolerance (C07) — assumed in FullClaim, validated by the drift oracle",
@@ -271,6 +344,23 @@ def check(rep: Report, tier: str, seed: int) -> None:
             worst[backend] = max(worst[backend], w)
             if msg:
                 rep.fail(f"[{backend}, under-resolved Krylov space, run was not refused] " + msg, ic.ser_case(case, result=r))
+    # truncating stream (emu-mps, saturated bond dimension / coarse precision): normalised state + consistency
+    worst["mps_truncating"] = 0.0
+    lost = 0
+    for _ in range(8 if tier == "quick" else 150):
+        case = gen_truncating(rng)
+        rep.case(key=("trunc", case["n"], case["max_bond_dim"], case["precision"], case["omega"][0][0]), nontrivial=True)
+        try:
+            r = run_truncating(case)
+        except Exception as e:
+            k = classify_exc(e)
+            rep.fail(f"real mps back-end raised {type(e).__name__}: {e}", ic.ser_case(case, stream="truncating"), klass=k)
+            continue
+        rep.hist("truncating_max_bond_reached", max(r["bond"]) >= case["max_bond_dim"])
+        msg, w = oracle_truncating(case, r)
+        worst["mps_truncating"] = max(worst["mps_truncating"], w)
+        if msg:
+            rep.fail("[mps, truncating run] " + msg, ic.ser_case(case, stream="truncating"))
     rep.extra["oracle_worst_over_allowed"] = {k: round(v, 5) for k, v in worst.items()}
     # replay of the recorded witness of the known finding on the real code (DESIGN §2.4)
     try:
@@ -311,7 +401,10 @@ def replay(rep: Report, path: str) -> int:
     for f in data.get("failing_inputs", []):
         case = f["data"]
         try:
-            msg = oracle(case, run_case(case))[0]
+            if case.get("stream") == "truncating":
+                msg = oracle_truncating(case, run_truncating(case))[0]
+            else:
+                msg = oracle(case, run_case(case))[0]
         except RecursionError:
             msg = None      # refusing an under-resolved step is an acceptable outcome
         except Exception as e:
